@@ -1,5 +1,7 @@
 // COPY of harness/src/bin/c11_woff2/enc.rs (git HEAD d4157b3) for C09: that module belongs to the C11 check, so C09 keeps
 // its own copy. Only this header was added.
+// Round 3 (C09 only): `encode_woff2_members` - per-member encoder choices, private copies of identical tables, a
+// collection directory for a single member, and the order of the table indices inside a member's directory entry.
 //! The harness's own WOFF2 encoder, written from the text of the W3C recommendation
 //! (it shares no code or table with allsorts). Encoder freedom is explicit in `Choices`.
 
@@ -531,14 +533,39 @@ fn prepare(src: &SrcFont, ch: &Choices, rng: &mut StdRng) -> Prepared {
 /// Encode one font, or several as a collection (tables with identical content are shared; a
 /// glyf table and its loca are one unit and always adjacent, glyf first).
 pub fn encode_woff2(fonts: &[SrcFont], ch: &Choices, rng: &mut StdRng) -> Encoded {
-    let prepared: Vec<Prepared> = fonts.iter().map(|f| prepare(f, ch, rng)).collect();
+    let members: Vec<Member> = fonts.iter().map(|f| Member { src: f.clone(), ch: ch.clone(), share: true, idx_order: 0 }).collect();
+    encode_woff2_members(&members, fonts.len() > 1, rng)
+}
+
+/// One member of a collection with its own encoder choices.
+#[derive(Clone, Debug)]
+pub struct Member {
+    pub src: SrcFont,
+    /// glyf / hmtx transform, triplet and 255UInt16 forms, bounding boxes of THIS member; order / tags / chunk are
+    /// taken from the first member (they are properties of the file)
+    pub ch: Choices,
+    /// true: tables whose content (and stored form) equals a table of an earlier sharing member are stored once;
+    /// false: this member gets private copies of everything
+    pub share: bool,
+    /// order of the table indices inside the CollectionFontEntry: 0 ascending, 1 descending, 2 by tag, 3 rotated
+    pub idx_order: u8,
+}
+
+/// Encode the members as one file. `collection`: write the `ttcf` flavour with a CollectionDirectory (also for a
+/// single member); otherwise the first member alone is a plain WOFF2 font.
+pub fn encode_woff2_members(members: &[Member], collection: bool, rng: &mut StdRng) -> Encoded {
+    let fonts: Vec<&SrcFont> = members.iter().map(|m| &m.src).collect();
+    let ch = &members[0].ch;
+    let prepared: Vec<Prepared> = members.iter().map(|m| prepare(&m.src, &m.ch, rng)).collect();
     let glyf_t = tag_u32("glyf");
     let loca_t = tag_u32("loca");
     // units: Vec of member tables (stored form + original bytes as identity)
     type Tab = (u32, u8, u32, Option<u32>, Vec<u8>, Vec<u8>);
     let mut units: Vec<Vec<Tab>> = Vec::new();
+    let mut unit_shared: Vec<bool> = Vec::new();
     let mut font_units: Vec<Vec<usize>> = Vec::new();
-    for p in &prepared {
+    for (fi, p) in prepared.iter().enumerate() {
+        let share = members[fi].share;
         let mut mine = Vec::new();
         let mut done_pair = false;
         for t in &p.tabs {
@@ -558,13 +585,18 @@ pub fn encode_woff2(fonts: &[SrcFont], ch: &Choices, rng: &mut StdRng) -> Encode
             } else {
                 vec![t.clone()]
             };
-            let pos = units.iter().position(|u| {
-                u.len() == unit.len() && u.iter().zip(unit.iter()).all(|(a, b)| a.0 == b.0 && a.1 == b.1 && a.5 == b.5 && a.4 == b.4)
-            });
+            let pos = if share {
+                units.iter().enumerate().position(|(k, u)| {
+                    unit_shared[k] && u.len() == unit.len() && u.iter().zip(unit.iter()).all(|(a, b)| a.0 == b.0 && a.1 == b.1 && a.5 == b.5 && a.4 == b.4)
+                })
+            } else {
+                None
+            };
             let k = match pos {
                 Some(k) => k,
                 None => {
                     units.push(unit);
+                    unit_shared.push(share);
                     units.len() - 1
                 }
             };
@@ -604,9 +636,9 @@ pub fn encode_woff2(fonts: &[SrcFont], ch: &Choices, rng: &mut StdRng) -> Encode
         entries.push((t.tag, block.len() as u32, t.orig_len, t.tlen.map(|x| x as i64).unwrap_or(-1)));
         block.extend_from_slice(&t.data);
     }
-    let is_collection = fonts.len() > 1;
+    let is_collection = collection;
     let mut font_idx: Vec<Vec<u16>> = Vec::new();
-    for fu in &font_units {
+    for (fi, fu) in font_units.iter().enumerate() {
         let mut idx = Vec::new();
         for &k in fu {
             for m in 0..units[k].len() {
@@ -614,6 +646,15 @@ pub fn encode_woff2(fonts: &[SrcFont], ch: &Choices, rng: &mut StdRng) -> Encode
             }
         }
         idx.sort();
+        match members[fi].idx_order {
+            1 => idx.reverse(),
+            2 => idx.sort_by_key(|&i| (tables[i as usize].tag, i)),
+            3 => {
+                let r = idx.len() / 2;
+                idx.rotate_left(r);
+            }
+            _ => {}
+        }
         font_idx.push(idx);
     }
     let coll = if is_collection {
